@@ -310,6 +310,11 @@ class SymInt:
     def __float__(self):
         raise Unsupported("float of symbolic int")
 
+    def __round__(self, ndigits=None):
+        if ndigits is None or (not is_sym(ndigits) and ndigits >= 0):
+            return self               # an int rounds to itself
+        raise Unsupported("round() of a symbolic int to a negative number of digits")
+
     def __truediv__(self, o):
         raise Unsupported("true division of symbolic int")
     __rtruediv__ = __truediv__
